@@ -54,13 +54,8 @@ Theorem ndg_view_eq_vgroup_view : forall v st', var_ok v ->
 Proof. exact ndg_view_eq_vgroup_view_lemma. Qed.
 Print Assumptions ndg_view_eq_vgroup_view.
 
-(** PARTIAL with respect to the property: agreement of the SDS interfaces on rank, extents and type of every
-    dataset at record level.  Missing for the full statement ("identical values, dimensions and type through
-    every interface"): (1) the values -- the lemma that the bytes SDreaddata / DFSDgetdata / ncvarget hand over
-    are the DFTAG_SD element converted by DFKconvert (C01, C03, C06); (2) the lemma that the library's Vgroup /
-    Vdata layer presents the description hdf_write_var built (sd_write_vg) unchanged (C07, C08).  Both are covered
-    by the correspondence runs only. *)
-Theorem sds_interfaces_agree_partial : forall v st', var_ok v ->
+(** the SDS interfaces agree on rank, extents and type of every dataset (descriptions; corollary of the next one) *)
+Theorem sds_descriptions_agree : forall v st', var_ok v ->
   let shown := (zlen (v_dims v), v_dims v, same_type (v_nt v), v_data_ref v) in
   ndg_view (sd_write_var v ++ st') (sd_ndg_members v) = Some shown /\
   vg_view (sd_write_var v ++ st') (sd_write_vg v) = Some shown /\
@@ -68,7 +63,28 @@ Theorem sds_interfaces_agree_partial : forall v st', var_ok v ->
   ndg_view (dfsd_put v ++ st') [(DFTAG_SD, v_data_ref v); (DFTAG_SDD, v_ref v)] = Some shown /\
   dfsd_view (dfsd_put v ++ st') [(DFTAG_SD, v_data_ref v); (DFTAG_SDD, v_ref v)] = Some shown.
 Proof. exact sds_readers_agree. Qed.
-Print Assumptions sds_interfaces_agree_partial.
+Print Assumptions sds_descriptions_agree.
+
+(** END TO END at the level of the element store, values included: a dataset written through SD (hdf_write_var's
+    records + the data element SDwritedata stores) or through DFSD (DFSDIputndg's records + the data element) is handed
+    back -- rank, extents, type name and EVERY VALUE -- by the SD reader on the NDG path, by the SD reader on the Vgroup
+    path and by the DFSD reader, for every number type and flavour (conversion = element-wise byte reversal unless the
+    file holds the host's order, applied with the type the READER decoded).
+    Layers below the model (assumed here, verified elsewhere): the element store is a finite map (C01/C12), the Vgroup
+    layer presents sd_write_vg unchanged (C07/C08), whole-dataset reads go through the slab engine (C03), the
+    conversion kernel is byte reversal (C06).  Tied to the library by the R-vs-M runs on element dumps. *)
+Theorem sds_values_agree_across_interfaces : forall v els st', var_ok v -> v_data_ref v <> 0 ->
+  Forall (fun e => Z.of_nat (length e) = ntsize (v_nt v)) els ->
+  let data := concat els in
+  let shown := (zlen (v_dims v), v_dims v, same_type (v_nt v), v_data_ref v) in
+  read_values ndg_view (sd_write_full v data st') (sd_ndg_members v) = Some (shown, data) /\
+  read_values_vg (sd_write_full v data st') (sd_write_vg v) = Some (shown, data) /\
+  read_values dfsd_view (sd_write_full v data st') (sd_ndg_members v) = Some (shown, data) /\
+  read_values ndg_view (dfsd_put_full v data st') [(DFTAG_SD, v_data_ref v); (DFTAG_SDD, v_ref v)] = Some (shown, data) /\
+  read_values dfsd_view (dfsd_put_full v data st') [(DFTAG_SD, v_data_ref v); (DFTAG_SDD, v_ref v)] = Some (shown, data).
+Proof. exact sds_values_agree. Qed.
+Print Assumptions sds_values_agree_across_interfaces.
+
 
 (* ---- record dimensions and dimension scales in the older records ---------------------------------------- *)
 (** the NDG of a record variable of an HDF file shows the variable's own record count, whatever the file-wide
@@ -111,14 +127,22 @@ Proof. exact (conj name_match_iff (conj find_coordvar_exact find_coordvar_total)
 Print Assumptions dimension_strings_come_from_the_dimensions_own_variable.
 
 (** DFSDIgetslice (DFSDgetdata / DFSDgetslice / DFSDreadslab): a dimension is merged into its neighbour only if it is
-    whole in the file and in the caller's array, i.e. its rows are contiguous in both; whole dimensions are merged.
-    PARTIAL with respect to the placement of the values: the induction over the row loop (offsets in file and array
-    after merging = row-major offsets before) is not proved; it rests on the padded-array correspondence runs. *)
-Theorem getslice_collapse_sound_partial :
+    whole in the file and in the caller's array; whole dimensions are merged (kernel) ... *)
+Theorem getslice_collapse_kernel :
   (forall a w s f, collapse_break (a, w, s, f) = false -> w <= a -> 0 <= s -> s + w <= f -> a = w /\ s = 0 /\ w = f) /\
   (forall a : Z, collapse_break (a, a, 0, a) = false).
 Proof. exact (conj collapse_only_whole_dimensions collapse_merges_whole_dimensions). Qed.
-Print Assumptions getslice_collapse_sound_partial.
+Print Assumptions getslice_collapse_kernel.
+
+(** ... and therefore, by induction over the whole loop, for every rank and every window that fits: after the collapse
+    every element of the window still lands at the same position of the caller's array and is taken from the same
+    position of the file, in the same order ([cells] = the row-major list of (array position, file position)).
+    What remains outside the model is the row loop that walks [cells] of the collapsed dimensions (Hseek / Hread /
+    DFKconvert per row); it is tied by the padded-array runs (dfsdp views). *)
+Theorem getslice_collapse_preserves_placement : forall fuel l, Forall gdim_ok l ->
+  cells (collapse fuel l) = cells l /\ Forall gdim_ok (collapse fuel l).
+Proof. exact collapse_preserves_cells. Qed.
+Print Assumptions getslice_collapse_preserves_placement.
 
 Theorem round2_code_as_modelled :
   SDgetdimstrs_namematch = "namelen == (*dp)->name->len && strncmp(name, (*dp)->name->values, strlen(name)) == 0"%string /\
@@ -142,12 +166,31 @@ Proof. vm_compute. repeat split; reflexivity. Qed.
     the one shared with the previous datasets) is read back, by hdf_read_ndgs' walk and by DFSDIgetndg, as exactly
     the scales in effect for that dataset; a dataset without record has no scale.  Which setter marks the record as
     modified / forgotten is read off dfsd.c (the four booleans below).
-    PARTIAL with respect to the writer session: strings, range and the extents take the same Ref.* route
-    (Ref.luf, Ref.maxmin, Ref.dims) and are not modelled; they rest on the dfsdseq correspondence runs. *)
-Theorem writer_session_scales_records_partial : forall ops, Forall wop_ok ops ->
+    The string records (Ref.luf) and the range (Ref.maxmin, one dataset only) follow below; the extents (Ref.dims:
+    rewritten whenever <= 0) are covered by sdd_roundtrip_all_pairs per dataset. *)
+Theorem writer_session_scales_records : forall ops, Forall wop_ok ops ->
   Forall put_reads_back (wsc_run (mkWs [] (-1) []) ops).
 Proof. exact wsc_session_reads_back. Qed.
-Print Assumptions writer_session_scales_records_partial.
+Print Assumptions writer_session_scales_records.
+
+(** the same for every other Ref.* slot, generically: for every sequence of set / forget / write, the record a dataset
+    refers to holds the value in effect; instantiated for the label/unit/format records (always written once modified)
+    and the range (applies to one dataset), with the setter / reset behaviour read off dfsd.c *)
+Theorem writer_session_slot_records : forall (A : Type) (present : A -> bool) (dflt : A) (oneshot : bool) ops st,
+  sl_ok A present dflt st -> Forall (slop_ok A) ops ->
+  Forall (sl_put_ok A present dflt) (sl_run true true oneshot present dflt st ops).
+Proof. exact sl_run_ok. Qed.
+Print Assumptions writer_session_slot_records.
+
+Theorem writer_session_strings_and_range :
+  (forall ops, Forall (slop_ok luf_value) ops ->
+     Forall (sl_put_ok luf_value (fun _ => true) (None, [])) (luf_run (mkSlot (None, []) (-1) (None, [])) ops)) /\
+  (forall ops, Forall (slop_ok range_value) ops ->
+     Forall (sl_put_ok range_value (fun v => match v with Some _ => true | None => false end) None)
+            (range_run (mkSlot None (-1) None) ops)).
+Proof. exact (conj luf_session_ok range_session_ok). Qed.
+Print Assumptions writer_session_strings_and_range.
+
 
 Theorem scales_bookkeeping_as_modelled :
   DFSDsetdimscale_null_marks_modified = true /\ DFSDsetdimscale_set_marks_modified = true /\
@@ -171,13 +214,26 @@ Theorem dfr8_group_read_by_dfr8_and_df24 : forall m st', ri_ok m -> ri_ncomp m =
 Proof. exact dfr8_rig_roundtrip. Qed.
 Print Assumptions dfr8_group_read_by_dfr8_and_df24.
 
-(** PARTIAL with respect to the property (descriptions only; the pixels and GR's own reader of the groups,
-    GRIget_image_list, rest on the correspondence runs and on C09) *)
-Theorem gr_group_read_by_older_interfaces_partial : forall m st', ri_ok m -> gr_compat m = true ->
+(** the group GR writes for the older interfaces is accepted by their readers with the image's description ... *)
+Theorem gr_group_read_by_older_interfaces : forall m st', ri_ok m -> gr_compat m = true ->
   dfgr_view (gr_put m ++ st') (gr_members m) = Some (rview_of m MFGR_INTERLACE_PIXEL) /\
   (ri_ncomp m = 1 -> dfr8_view (gr_put m ++ st') (gr_members m) = Some (rview_of m MFGR_INTERLACE_PIXEL)).
 Proof. exact gr_rig_read_by_old. Qed.
-Print Assumptions gr_group_read_by_older_interfaces_partial.
+Print Assumptions gr_group_read_by_older_interfaces.
+
+(** ... and with every pixel: an uncompressed 8-bit image written by GR or by DFR8 is handed back, description and
+    pixels, by DFR8getrig and by DFGRgetrig followed by the read of the image element.  Outside the model: GR's own
+    reader of the groups (GRIget_image_list), compressed elements (C05) and the interlace conversion of multi-component
+    images (C09); these rest on the correspondence runs. *)
+Theorem raster8_values_agree_across_interfaces : forall m pixels st', ri_ok m -> ri_ncomp m = 1 -> ri_ctag m = 0 ->
+  (gr_compat m = true ->
+     rig_read_pixels dfr8_view (gr_put_full m pixels st') (gr_members m) = Some (rview_of m MFGR_INTERLACE_PIXEL, pixels) /\
+     rig_read_pixels dfgr_view (gr_put_full m pixels st') (gr_members m) = Some (rview_of m MFGR_INTERLACE_PIXEL, pixels)) /\
+  rig_read_pixels dfr8_view (dfr8_put_full m pixels st') (dfr8_members m) = Some (rview_of m (ri_il m), pixels) /\
+  rig_read_pixels dfgr_view (dfr8_put_full m pixels st') (dfr8_members m) = Some (rview_of m (ri_il m), pixels).
+Proof. exact raster8_values_agree. Qed.
+Print Assumptions raster8_values_agree_across_interfaces.
+
 
 Theorem other_number_types_refused : forall ver ty w cls,
   ty <> DFNT_UCHAR8 -> ty <> DFNT_UINT8 -> rig_nt_ok [ver; ty; w; cls] = false.
@@ -231,6 +287,27 @@ Proof.
   repeat split; try reflexivity; try (repeat constructor; fail); try (cbn; lia); try discriminate;
     try (repeat constructor; cbn; lia); try (vm_compute; tauto).
 Qed.
+
+Example ex_deepening :
+  read_values dfsd_view (sd_write_full ex_var [1; 0; 0; 0; 2; 0; 0; 0; 3; 0; 0; 0; 4; 0; 0; 0; 5; 0; 0; 0; 6; 0; 0; 0] [])
+              (sd_ndg_members ex_var) =
+    Some ((2, [2; 3], 16408, 5), [1; 0; 0; 0; 2; 0; 0; 0; 3; 0; 0; 0; 4; 0; 0; 0; 5; 0; 0; 0; 6; 0; 0; 0]) /\
+  convert DFNT_INT16 [1; 2; 3; 4] = [2; 1; 4; 3] /\
+  collapse 3 [(4, 4, 0, 4); (5, 3, 1, 6); (2, 2, 0, 2)] = [(20, 12, 4, 24); (2, 2, 0, 2)] /\
+  cells [(2, 2, 0, 2); (3, 2, 1, 4)] = [(0, 2); (1, 3); (2, 4); (3, 5)] /\
+  range_run (mkSlot None (-1) None) [SlSet (Some ([9], [1])); SlPut 2; SlPut 3] =
+    [(Some ([9], [1]), Some (Some ([9], [1]))); (None, None)] /\
+  luf_run (mkSlot (None, []) (-1) (None, [])) [SlSet (Some ([108], [], []), []); SlPut 2; SlPut 3] =
+    [((Some ([108], [], []), []), Some (Some ([108], [], []), [])); ((Some ([108], [], []), []), Some (Some ([108], [], []), []))] /\
+  rig_read_pixels dfr8_view (gr_put_full (mkRi 4 3 1 DFNT_UINT8 0 DFTAG_RI 2 0 0 1) [1; 2; 3; 4; 5; 6; 7; 8; 9; 10; 11; 12] [])
+                  (gr_members (mkRi 4 3 1 DFNT_UINT8 0 DFTAG_RI 2 0 0 1)) =
+    Some (mkRv 4 3 1 0 0 DFTAG_RI 2 0, [1; 2; 3; 4; 5; 6; 7; 8; 9; 10; 11; 12]).
+Proof. vm_compute. repeat split; reflexivity. Qed.
+Example ex_deepening_hyps :
+  Forall (fun e => Z.of_nat (length e) = ntsize (v_nt ex_var)) [[1; 0; 0; 0]; [2; 0; 0; 0]] /\
+  Forall gdim_ok [(4, 4, 0, 4); (5, 3, 1, 6); (2, 2, 0, 2)] /\
+  Forall (slop_ok range_value) [SlSet (Some ([9], [1])); SlPut 2; SlPut 3].
+Proof. repeat split; repeat constructor; cbn; lia. Qed.
 
 Definition ex_img : rimage := mkRi 4 3 1 DFNT_UINT8 2 DFTAG_RI 2 0 3 1.
 Example ex_img_ok : ri_ok ex_img /\ gr_compat ex_img = true /\ id_ok (ri_id ex_img) /\ sdd_ok (sd_sdd ex_var).
